@@ -162,10 +162,15 @@ def utf8(repo: Repo, rep):
         "text exchanged with the format-command is converted explicitly with UTF-8 on both sides (bytes in, bytes out): no text=True / universal_newlines / "
         "locale-default encoding, no errors='replace' - under a non-UTF-8 locale every non-ASCII character of the file would be replaced silently",
     )
+    fm = repo.module("_format.py")
     f = repo.func("_format.py::format_code")
-    runs = [c for c in body_nodes(f.node) if isinstance(c, ast.Call) and norm(c.func) in ("sp.run", "subprocess.run", "sp.Popen", "subprocess.Popen", "sp.check_output", "subprocess.check_output")]
-    rep.floor("R-UTF8", "subprocess calls in format_code", len(runs), 1)
-    for c in runs:
+    runs = []
+    for g in fm.funcs.values():
+        for c in body_nodes(g.node):
+            if isinstance(c, ast.Call) and norm(c.func) in ("sp.run", "subprocess.run", "sp.Popen", "subprocess.Popen", "sp.check_output", "subprocess.check_output"):
+                runs.append((g, c))
+    rep.floor("R-UTF8", "subprocess calls in _format.py", len(runs), 1)
+    for f, c in runs:
         kws = {k.arg: k.value for k in c.keywords if k.arg}
         textmode = any(k in kws and not (isinstance(kws[k], ast.Constant) and kws[k].value in (False, None)) for k in ("text", "universal_newlines"))
         enc = kws.get("encoding")
@@ -176,8 +181,8 @@ def utf8(repo: Repo, rep):
             rep.violation("R-UTF8", f, c, "the format-command is fed/read with a locale-dependent or lossy text conversion instead of explicit UTF-8 bytes: under LC_ALL=C every non-ASCII character of the test file is written back as `?`", construct="subprocess-encoding")
         else:
             rep.ok("R-UTF8", f, c, "UTF-8 bytes in")
-    decs = [c for c in body_nodes(f.node) if isinstance(c, ast.Call) and isinstance(c.func, ast.Attribute) and c.func.attr == "decode"]
-    for c in decs:
+    decs = [(g, c) for g in fm.funcs.values() for c in body_nodes(g.node) if isinstance(c, ast.Call) and isinstance(c.func, ast.Attribute) and c.func.attr == "decode" and ("stdout" in norm(c.func.value))]
+    for f, c in decs:
         ok = c.args and isinstance(c.args[0], ast.Constant) and str(c.args[0].value).lower().replace("-", "") == "utf8" and not any(k.arg == "errors" for k in c.keywords)
         if ok:
             rep.ok("R-UTF8", f, c, "UTF-8 bytes out")
